@@ -110,7 +110,7 @@ Proof.
     destruct (d_mark d); [fr|]. eapply api_frame_trans; [|apply start_tagging_api]. fr.
   - destruct (tget n (tags st)); [|apply api_frame_refl]. destruct (referenced n (tags st)); [apply api_frame_refl|].
     eapply api_frame_trans; [apply (fold_api (fun s c => detach s n c)); intros; apply detach_api|]. fr.
-  - destruct (tget n (tags st)); [|apply api_frame_refl]. destruct (refs_ok n d (tags st)); [|apply api_frame_refl].
+  - destruct (tget n (tags st)); [|apply api_frame_refl]. destruct (complex d && _); [apply api_frame_refl|]. destruct (refs_ok n d (tags st)); [|apply api_frame_refl].
     eapply api_frame_trans; [|apply start_converter_api]. eapply api_frame_trans; [|apply start_tagging_api]. fr.
   - destruct (tget n (tags st)); [|apply api_frame_refl]. destruct ids; [apply api_frame_refl|].
     destruct (next st <=? maxl (n0 :: ids)); [apply api_frame_refl|].
@@ -172,7 +172,7 @@ Proof.
     destruct (d_mark d); [qf|]. eapply qframe_trans; [|apply start_tagging_q]. qf.
   - destruct (tget n (tags st)); [|apply qframe_refl]. destruct (referenced n (tags st)); [apply qframe_refl|].
     eapply qframe_trans; [apply (fold_q (fun s c => detach s n c)); intros; apply detach_q|]. qf.
-  - destruct (tget n (tags st)); [|apply qframe_refl]. destruct (refs_ok n d (tags st)); [|apply qframe_refl].
+  - destruct (tget n (tags st)); [|apply qframe_refl]. destruct (complex d && _); [apply qframe_refl|]. destruct (refs_ok n d (tags st)); [|apply qframe_refl].
     eapply qframe_trans; [|apply start_converter_q]. eapply qframe_trans; [|apply start_tagging_q]. qf.
   - destruct (tget n (tags st)); [|apply qframe_refl]. destruct ids; [apply qframe_refl|].
     destruct (next st <=? maxl (n0 :: ids)); [apply qframe_refl|].
@@ -245,7 +245,7 @@ Proof.
   - destruct (tget n (tags st)); [|exact HC]. destruct (referenced n (tags st)); [exact HC|].
     eapply conv_covered_cframe; [exact HC|].
     eapply cframe_trans; [apply (fold_c (fun s c => detach s n c)); intros; apply detach_c|]. unfold cframe; simpl; auto.
-  - destruct (tget n (tags st)); [|exact HC]. destruct (refs_ok n d (tags st)); [|exact HC]. apply start_converter_post.
+  - destruct (tget n (tags st)); [|exact HC]. destruct (complex d && _); [exact HC|]. destruct (refs_ok n d (tags st)); [|exact HC]. apply start_converter_post.
   - destruct (tget n (tags st)); [|exact HC]. destruct ids; [exact HC|].
     destruct (next st <=? maxl (n0 :: ids)); [exact HC|]. apply start_converter_post.
   - destruct (tget n (tags st)); [|exact HC]. destruct ids; [exact HC|].
@@ -320,7 +320,7 @@ Proof.
     apply (tag_covered_tcert st); [exact TI|].
     eapply tcert_trans; [apply (fold_t (fun s c => detach s n c)); intros; apply detach_t|].
     split; [reflexivity|]. intros A. simpl. unfold tdel. apply ac_tset; [exact A|reflexivity].
-  - destruct (tget n (tags st)); [|exact TW]. destruct (refs_ok n d (tags st)); [|exact TW].
+  - destruct (tget n (tags st)); [|exact TW]. destruct (complex d && _); [exact TW|]. destruct (refs_ok n d (tags st)); [|exact TW].
     apply start_converter_keeps_tag, start_tagging_post.
   - destruct (tget n (tags st)); [|exact TW]. destruct ids; [exact TW|].
     destruct (next st <=? maxl (n0 :: ids)); [exact TW|]. apply start_converter_keeps_tag, start_tagging_post.
@@ -566,6 +566,7 @@ Proof.
          apply (referenced_false n (tags st) RF k0 t1 I1); [congruence|rewrite D1; exact Hin]. }
     all: try (intros _; repeat split). all: try (left; reflexivity).
   - (* AQuery *) destruct (tget n (tags st)) as [t|] eqn:Tn; [|exact TC].
+    destruct (complex d && _); [exact TC|].
     destruct (refs_ok n d (tags st)) eqn:RO; [|exact TC].
     apply tcore_start_converter, tcore_start_tagging.
     apply (tcore_replace_inherit st n t); try assumption; simpl; try reflexivity.
